@@ -192,6 +192,25 @@ func primitives3(r *vlib.Run) {
 				c.Sample("shape3d", 8, s.params)
 			}
 			runSubject3(c, s, 48)
+			// the same field handed over as plain functions (FuncSDF / FuncPointSDF): same answers,
+			// the bounds that were passed in
+			if c.Index%8 == 3 {
+				lib := s.sdf
+				pt := s.point
+				mn, mx := lib.Min(), lib.Max()
+				var w model3d.SDF = model3d.FuncSDF(mn, mx, lib.SDF)
+				ws := &subject3{api: "model3d.FuncSDF[" + gn.name + "]", tag: "FuncSDF", sdf: w, ref: s.ref, params: s.params, quiet: true, baseOK: baseAgrees(s)}
+				if pt != nil && c.Index%16 == 3 {
+					pw := model3d.FuncPointSDF(mn, mx, pt.PointSDF)
+					ws = &subject3{api: "model3d.FuncPointSDF[" + gn.name + "]", tag: "FuncPointSDF", sdf: pw, point: pw, ref: s.ref, params: s.params, quiet: true, baseOK: baseAgrees(s)}
+					w = pw
+				}
+				if w.Min() != mn || w.Max() != mx {
+					c.Violation(ws.api+".Min/Max/as-given", fmt.Sprintf("bounds %v..%v, constructed with %v..%v", w.Min(), w.Max(), mn, mx), nil)
+				}
+				c.Count("FuncSDF.wrappers", 1)
+				runSubject3(c, ws, 12)
+			}
 		})
 	}
 }
